@@ -52,7 +52,7 @@ class C18(Prop):
     REAL_VS_STUB = {'real': ['dataflows/processors/parallelize.py (all of it)', 'Flow / iterable_loader / driver'],
                     'stub': ['multiprocessing.Queue/Process', 'threading.Thread/Lock/Event', 'queue.Queue', 'os.cpu_count/getpid', 'time (virtual clock)']}
     PROBES = ['line-preempt-run', 'clock-jumped', 'source-stalled', 'rowfunc-stalled', 'consumer-stalled', 'bypass-resource', 'default-num-processors',
-              'empty-stream', 'nothing-selected', 'first-selected-late', 'workers>rows', 'two-parallelize-stages', 'rowfunc-raised'] + ['strategy:' + x for x in sorted(set(STRATEGIES))]
+              'empty-stream', 'nothing-selected', 'first-selected-late', 'workers>rows', 'two-parallelize-stages', 'rowfunc-raised', 'slow-worker-exit'] + ['strategy:' + x for x in sorted(set(STRATEGIES))]
     TIERS = {'quick': dict(runs=4000, wall=100, run_wall=60),
              'thorough': dict(runs=150000, wall=1700, run_wall=60)}
     SHRINK_FROZEN = ()
@@ -85,6 +85,9 @@ class C18(Prop):
             sc['func_raises'] = sorted(set(rng.randrange(n) for _ in range(rng.choice([1, 2]))))
         if rng.random() < 0.12:
             sc['two_stage'] = {'workers': rng.choice([1, 2]), 'predicate': rng.choice(['none', 'some', 'late'])}
+        if rng.random() < 0.15:
+            # a worker process that needs a while to exit after its function returned (teardown, loaded machine): well below the 10 s the code waits
+            sc['exit_delays'] = {'worker-%d' % (1 + rng.randrange(sc['workers'])): rng.choice([0.3, 2.5, 6.0])}
         if sc['strategy'] == 'starve':
             sc['starve_target'] = rng.choice(['worker-1', 'worker', 'thread-1', 'thread-2', 'xfer', 'main', 'xfer:q1', 'xfer:q2'])
         return sc
@@ -98,7 +101,7 @@ class C18(Prop):
         est = 30 * (n + nw) + 60
         s = S.Sched(ctx, ctx.rng('sched'), strategy=sc.get('strategy', 'uniform'), schedule=sc.get('schedule'),
                     step_cap=(400 * (n + nw) + 4000 if not sc.get('line') else 4000 * (n + nw) + 40000) * (3 if sc.get('two_stage') else 1),
-                    params={'est_steps': est, 'starve_target': sc.get('starve_target', 'worker')})
+                    params={'est_steps': est, 'starve_target': sc.get('starve_target', 'worker'), 'exit_delays': sc.get('exit_delays') or {}})
         S.install(s, par, cpu_count=sc.get('cpu_count'), line_preempt=bool(sc.get('line')))
         applied = {}
         src_st = sc.get('source_stalls') or {}
@@ -197,6 +200,8 @@ class C18(Prop):
         links.append(sink)
         flow = Flow(*links)
         ctx.probe('strategy:' + (sc.get('strategy') or 'uniform'))
+        if sc.get('exit_delays'):
+            ctx.probe('slow-worker-exit')
         if n == 0:
             ctx.probe('empty-stream')
         if pk == 'nothing':
